@@ -59,6 +59,10 @@ def check(ctx, rep):
             'capability': [f for f in kv.built if f.kind == 'Fn' and f.name == fname and f.npath == 'crux_kv::' + fname],
             'command': [f for f in kv.built if f.kind == 'AssocFn' and f.name == fname and path_matches(f.assoc.get('self_adt'), 'crux_kv::command::KeyValue')],
         }
+        if not apis['capability']:
+            # the private request function folded into the capability's own `<name>_async` method
+            apis['capability'] = [f for f in kv.built if f.kind == 'AssocFn' and f.name == fname + '_async' and path_matches(f.assoc.get('self_adt'), 'crux_kv::KeyValue')
+                                  and not f.assoc.get('trait')]
         for api, fs in apis.items():
             key = '%s|%s' % (api, variant)
             if len(fs) != 1:
